@@ -253,10 +253,10 @@ def freeze_establishes_invariant(report):
     rel = AurelCore(fd, verbose=False)
     rel.data.update(gxx=np.ones((6, 6, 6)), my_custom=np.ones((6, 6, 6)), Kdown3=np.zeros((3, 3, 6, 6, 6)))
     rel.freeze_data()
-    ok &= all(rel.var_importance[k] == 0 for k in rel.data)
+    ok &= all(rel.var_importance.get(k, 1.0) == 0 for k in rel.data)
     rel2 = AurelCore(fd, verbose=False)
     rel2.load_data({'gxx': [np.ones((6, 6, 6))] * 2, 'weird': [np.ones((6, 6, 6))] * 2}, 1)
-    ok &= all(rel2.var_importance[k] == 0 for k in rel2.data)
+    ok &= all(rel2.var_importance.get(k, 1.0) == 0 for k in rel2.data)
     captured = {}
     orig = atime.core.AurelCore
 
@@ -277,8 +277,17 @@ def freeze_establishes_invariant(report):
                   'holds' if ok else 'sat', group='freeze establishes the invariant (concrete execution)',
                   kind='concrete', trivial=True)
     if not ok:
-        report.violation('freeze-invariant', 'a loader leaves a present key with non-zero importance',
-                         report.write_replay('freeze-invariant', {}))
+        # concrete confirmation through the real clean-up: a frozen custom input that was read once must survive
+        rel4 = AurelCore(fd, verbose=False, clear_cache_every_nbr_calc=1)
+        rel4.data.update(gxx=np.ones((6, 6, 6)), my_custom=np.ones((3, 3, 6, 6, 6)))
+        rel4.freeze_data()
+        rel4['my_custom']
+        for k in ('gammadet', 'Ktrace', 'gammaup3', 'betadown3', 'gdet'):
+            rel4[k]
+        evicted = 'my_custom' not in rel4.data
+        report.violation('freeze-invariant', 'a loader leaves a present key with non-zero importance'
+                         + (' (frozen custom input evicted by the real clean-up after 5 requests)' if evicted else ''),
+                         report.write_replay('freeze-invariant', dict(evicted_in_real_run=evicted)))
 
 
 def assignments(tier):
